@@ -33,6 +33,8 @@ def configs(tier):
             cfgs.append(dict(group='window', k=k, n=n, reads='var_first', _cost=n * n))
             cfgs.append(dict(group='window', k=k, n=n, reads='sparse', _cost=n * n))
     cfgs.append(dict(group='ctor'))
+    for k in ((16, 49, 64, 100, 257) if tier == 'quick' else (16, 31, 32, 33, 49, 64, 98, 100, 128, 255, 256, 257, 300, 513, 1000)):
+        cfgs.append(dict(group='large_window', k=k, _cost=k))
     for k in (2, 3, 4):
         cfgs.append(dict(group='rejected_value', k=k, _cost=50))
     return cfgs
@@ -129,3 +131,20 @@ def _rejected_value(env, cfg):
 
 
 META['explanation'] += ' Further groups: different read patterns (var first, sparse reads); a value the real float buffer refuses leaves the window intact.'
+
+
+def _large_window(env, cfg):
+    """window sizes far beyond the bound of the main group: the mean (a linear claim) of the last min(n, k) symbolic values
+    around the fill point, the first wrap-around and the second one"""
+    k = cfg['k']
+    n = 2 * k + 3
+    t = guarded(env, 'constructor_on_installed_numpy', SlidingWindowTracker, k)
+    vs = [env.real(f"v{i}") for i in range(n)]
+    probes = {1, 2, k - 1, k, k + 1, k + 2, 2 * k - 1, 2 * k, 2 * k + 1, 2 * k + 2, 2 * k + 3}
+    for i, v in enumerate(vs):
+        guarded(env, 'update', t.update, v)
+        if i + 1 in probes:
+            c = min(i + 1, k)
+            m = guarded(env, 'mean', lambda: t.mean)
+            env.claim('mean_of_last_min_n_k_large_window', (not is_nonfinite(m)) and eq(m * c, total(vs[i + 1 - c:i + 1])),
+                      detail=f"k={k}, n={i + 1}")
